@@ -129,7 +129,15 @@ func nn(a []int) []int {
 func collectCanon(seq []byte, k int) (items [][]int, panicked bool) {
 	items = [][]int{}
 	panicked, _ = catch(func() {
-		for kmer := range sequtil.CanonicalSubsequences(seq, k) {
+		// the iterator VALUE is used three times: a full pass, a pass broken off after one item, and the pass that is
+		// recorded - an iter.Seq must give the same items every time it is ranged over
+		it := sequtil.CanonicalSubsequences(seq, k)
+		for range it {
+		}
+		for range it {
+			break
+		}
+		for kmer := range it {
 			items = append(items, ints(kmer)) // ints copies: the yielded slice aliases seq / rc
 		}
 	})
@@ -361,6 +369,16 @@ func seqDrive(args []string) error {
 			}
 			do(withDst("revcomp", s, r.Intn(len(dstVars))))
 			do(seqReq{Op: "revcompstr", Src: s})
+		}
+		// strings are byte strings: every well-formed 2-byte UTF-8 sequence (and a sample of 3-byte ones) between legal
+		// bases - a character is not a base, whatever its code point's low byte is
+		for b1 := 0xC2; b1 <= 0xDF; b1++ {
+			for b2 := 0x80; b2 <= 0xBF; b2++ {
+				do(seqReq{Op: "revcompstr", Src: []int{'A', b1, b2, 'c'}})
+			}
+		}
+		for i := 0; i < 1500; i++ {
+			do(seqReq{Op: "revcompstr", Src: []int{'g', 0xE1 + r.Intn(12), 0x80 + r.Intn(64), 0x80 + r.Intn(64), 'T'}})
 		}
 	case "canon":
 		r := newRand(12002)
